@@ -29,6 +29,7 @@ fn registry() -> Vec<PartDesc> {
     v.push(desc::<props::c07::C07E2>("exploration"));
     v.push(desc::<props::c07::C07E2X>("exploration"));
     v.push(desc::<props::c07::C07Free>("exploration"));
+    v.push(desc::<props::c07::loopfree::C07LoopFree>("exploration"));
     v.push(desc::<props::c09::C09>("exploration"));
     v.push(desc::<props::c10::C10E1>("exploration"));
     v.push(desc::<props::c10::C10E2>("exploration"));
@@ -96,14 +97,7 @@ fn install_panic_hook() {
 /// the tree under /repo this binary was compiled from vs. the tree as it is now
 fn warn_if_stale() {
     let built = env!("RV_REPO_STATE");
-    let head = std::process::Command::new("git").args(["-C", "/repo", "rev-parse", "HEAD"]).output().map(|o| String::from_utf8_lossy(&o.stdout).trim().to_string()).unwrap_or_default();
-    let diff = std::process::Command::new("git").args(["-C", "/repo", "diff", "HEAD", "--", "ractor/src", "ractor_cluster/src", "ractor_cluster_derive/src"]).output().map(|o| o.stdout).unwrap_or_default();
-    let mut h: u64 = 0xcbf29ce484222325;
-    for b in diff {
-        h ^= b as u64;
-        h = h.wrapping_mul(0x100000001b3);
-    }
-    let now = format!("{head}-{h:016x}");
+    let now = runner::current_repo_state();
     if built != now {
         eprintln!("WARNING: this rv binary was built from /repo state {built}, the tree is now {now}: STALE BINARY — rebuild with /verif/check (results below describe the old tree)");
     }
@@ -181,6 +175,7 @@ fn main() {
             let dir = std::path::PathBuf::from(args.get(1).expect("directory"));
             props::c19::write_fuzz_seeds(&dir);
         }
+        Some("built-from") => println!("{}", env!("RV_REPO_STATE")),
         Some("list") => {
             for p in &reg {
                 println!("{} {} variant='{}' level={}", p.prop, p.part, p.variant, p.level);
